@@ -39,9 +39,9 @@ contract(
         # scoped: only events of the named bucket that intersect the query's window (widened to whole milliseconds), all of them,
         # newest first, as fresh objects
         "s0 == parse_date(namespace['STARTTIME']) and e0 == parse_date(namespace['ENDTIME'])",
-        "all(result[j].id is not None and in_window(datastore.storage_strategy, result[j].id, bucketname, floor_to_ms(s0),"
+        "all(result[j].id is not None and may_window(datastore.storage_strategy, result[j].id, bucketname, floor_to_ms(s0),"
         "                                             floor_to_ms(e0) + timedelta(milliseconds=1)) for j in range(len(result)))",
-        "all(not in_window(datastore.storage_strategy, i, bucketname, floor_to_ms(s0), floor_to_ms(e0) + timedelta(milliseconds=1))"
+        "all(not must_window(datastore.storage_strategy, i, bucketname, floor_to_ms(s0), floor_to_ms(e0) + timedelta(milliseconds=1))"
         "    or any(result[j].id == i for j in range(len(result))) for i in event_ids(datastore.storage_strategy))",
         "fresh(result) and all(fresh(result[j]) and fresh(result[j].data) for j in range(len(result)))",
     ],
@@ -55,9 +55,8 @@ contract(
     requires=["cache_inv(datastore)", "'STARTTIME' in namespace and 'ENDTIME' in namespace"] + WINDOW_OK,
     ensures=RO + [
         # the number of events of the named bucket that intersect the query window exactly as given (no widening here)
-        "result > 0 or all(not (in_bucket(datastore.storage_strategy, i, bucketname)"
-        "                       and ev_end(datastore.storage_strategy, i) >= lo_bound(parse_date(namespace['STARTTIME']))"
-        "                       and ev_start(datastore.storage_strategy, i) <= hi_bound(parse_date(namespace['ENDTIME'])))"
+        # (edges to the millisecond: must_window, see contracts/sqlite.py)
+        "result > 0 or all(not must_window(datastore.storage_strategy, i, bucketname, parse_date(namespace['STARTTIME']), parse_date(namespace['ENDTIME']))"
         "                  for i in event_ids(datastore.storage_strategy))",
         "result >= 0",
     ],
